@@ -28,17 +28,17 @@ DEMO = 'mapproxy/service/demo.py'
 # handler -> (authorization calls that must dominate, content calls)
 HANDLERS = {
     WMS + ':WMSServer.map': (('self.authorized_layers', 'self.filter_actual_layers'),
-                             ('renderer.render', 'merger.merge', 'LayerRenderer')),
-    WMS + ':WMSServer.featureinfo': (('self.authorized_layers', 'self.filter_actual_layers'), ('layer.get_info',)),
+                             ('render', 'merge', 'LayerRenderer')),
+    WMS + ':WMSServer.featureinfo': (('self.authorized_layers', 'self.filter_actual_layers'), ('get_info',)),
     WMS + ':WMSServer.capabilities': (('self.authorized_capability_layers',), ('Capabilities',)),
     WMS + ':WMSServer.legendgraphic': (('self.authorized_layers', 'self.authorized_capability_layers'), ('legend', 'concat_legends')),
-    TILE + ':TileServer.map': (('self.layer',), ('layer.render',)),
+    TILE + ':TileServer.map': (('self.layer',), ('render',)),
     TILE + ':TileServer.tms_capabilities': (('self.layer', 'self.authorized_tile_layers'),
                                             ('self._render_layer_template', 'self._render_template')),
-    KML + ':KMLServer.map': (('self.authorize_tile_layer',), ('layer.render',)),
+    KML + ':KMLServer.map': (('self.authorize_tile_layer',), ('render',)),
     KML + ':KMLServer.kml': (('self.authorize_tile_layer',), ('self._get_subtiles', 'render', 'self._tile_wgs_bbox')),
-    WMTS + ':WMTSServer.tile': (('self.authorize_tile_layer',), ('tile_layer.render',)),
-    WMTS + ':WMTSServer.featureinfo': (('self.authorize_tile_layer',), ('source.get_info', 'get_info')),
+    WMTS + ':WMTSServer.tile': (('self.authorize_tile_layer',), ('render',)),
+    WMTS + ':WMTSServer.featureinfo': (('self.authorize_tile_layer',), ('get_info',)),
     WMTS + ':WMTSServer.capabilities': (('self.authorized_tile_layers',), ('self.capabilities_class',)),
     DEMO + ':DemoServer.handle': (('self.authorized_demo',), ('self._render_wms_template', 'self._render_tms_template',
                                                               'self._render_wmts_template', 'self._render_capabilities_template',
